@@ -21,7 +21,7 @@ FAULTS = {
     "write": ["missing", "lstat-EACCES", "lstat-EIO", "open-EACCES", "open-EIO", "read-fails", "bad-arcname-type"],
     "writestr": ["bad-arcname", "bad-arcname-abs", "bad-data-type"],
     "writef": ["bad-arcname", "text-mode-source", "read-fails", "bad-source-type"],
-    "writeall": ["missing", "open-EACCES", "read-fails"],
+    "writeall": ["missing", "open-EACCES", "read-fails", "lstat-EACCES", "lstat-EIO"],
 }
 KS = [0, 1, 4095, 4096, 4097]
 
@@ -350,6 +350,20 @@ class C15(Check):
                     out.violate(dict(sig, kind="midread-partial-member-delivered-as-complete"), observed={"name": failed_name, "len": len(got[failed_name])},
                                 expected="error or complete content")
                 return out
+            if names != want_names and plans[pos][0] == "writeall" and seen_exc is not None:
+                # writeall is a loop of write() calls over a tree: what it had completely written before the failing entry cannot be
+                # taken back out of a solid stream.  Accept a prefix (in walk order) of the failed call's members, each intact.
+                tname, tdata = plans[pos][2], plans[pos][3]
+                full = [(tname, None), (tname + "/a.txt", tdata), (tname + "/sub", None), (tname + "/sub/b.txt", tdata[::-1])]
+                before = [m for m in model if not m[0].startswith(tname)]
+                idx = sum(1 for (c2, p2, n2, d2) in plans[:pos] for _ in ([1] if c2 != "writeall" else [1, 2, 3, 4]))
+                for cut in range(len(full)):
+                    cand = model[:idx] + full[:cut] + model[idx:]
+                    if names == [n for n, _ in cand]:
+                        model = cand
+                        want_names = names
+                        out.label("writeall:partial-prefix-%d" % cut)
+                        break
             if names != want_names:
                 out.violate(dict(sig, kind="members-differ-after-failed-call"), observed=names, expected=want_names)
                 return out
